@@ -345,7 +345,7 @@ func checkC06(c *Ctx) {
 			continue
 		}
 		c.Analysed(FuncName(clo))
-		isB := ssa.Value(clo.Params[1])
+		isB := strip(clo.Params[1])
 		for _, in := range instrsOf(clo) {
 			call, ok := in.(*ssa.Call)
 			if !ok || !callsFuncField(&call.Call, t.fSend) {
@@ -449,13 +449,15 @@ func checkC06(c *Ctx) {
 		}
 		nApp++
 		pid := strip(els[0])
+		// the not-seen test: `_, seen := used[pid]` or, for a map to bool, `used[pid]` itself
 		ok2 := boolFact(FactsAt(cl), false, func(v ssa.Value) bool {
-			tup, isOK := commaOK(v)
-			if !isOK {
-				return false
+			var lk *ssa.Lookup
+			if tup, isOK := commaOK(v); isOK {
+				lk, _ = tup.(*ssa.Lookup)
+			} else if l, isL := v.(*ssa.Lookup); isL && !l.CommaOk {
+				lk = l
 			}
-			lk, isL := tup.(*ssa.Lookup)
-			if isL && strip(lk.Index) == pid {
+			if lk != nil && strip(lk.Index) == pid {
 				usedLookup = lk
 				return true
 			}
@@ -473,7 +475,7 @@ func checkC06(c *Ctx) {
 				if f.Op != 0 {
 					continue
 				}
-				if tup, isOK := commaOK(f.Bool); !isOK || tup != ssa.Value(usedLookup) {
+				if tup, isOK := commaOK(f.Bool); (!isOK || tup != ssa.Value(usedLookup)) && f.Bool != ssa.Value(usedLookup) {
 					continue
 				}
 				seen := b.Succs[0]
@@ -510,7 +512,13 @@ func checkC06(c *Ctx) {
 				continue
 			}
 			cal := staticCallee(&cl.Call)
-			if cal != nil && (cal.Name() == "sortPartyIdentifiers" || isCallTo(&cl.Call, "sort", "Sort")) && len(cl.Call.Args) >= 1 && strip(cl.Call.Args[0]) == res && instrDominates(cl, r) {
+			isSort := cal != nil && cal.Name() == "sortPartyIdentifiers"
+			for _, nm := range [][2]string{{"sort", "Sort"}, {"sort", "Slice"}, {"sort", "SliceStable"}, {"sort", "Stable"}, {"slices", "Sort"}} {
+				if isCallTo(&cl.Call, nm[0], nm[1]) {
+					isSort = true
+				}
+			}
+			if isSort && len(cl.Call.Args) >= 1 && (strip(cl.Call.Args[0]) == res || sameValue(cl.Call.Args[0], res)) && instrDominates(cl, r) {
 				okSort = true
 			}
 		}
@@ -518,11 +526,16 @@ func checkC06(c *Ctx) {
 	}
 	// the translation uses the node→party table on the very id iterated
 	okTab := false
+	fTab := m.Field(PkgThreshold, "membership", "uID2PID")
 	for _, in := range instrsOf(translate) {
 		if cl, ok := in.(*ssa.Call); ok {
 			if cal := staticCallee(&cl.Call); cal != nil && cal.Name() == "partyIDByUniversalID" {
 				okTab = true
 			}
+		}
+		// the accessor written out: a lookup in the node→party table
+		if lk, ok := in.(*ssa.Lookup); ok && fTab != nil && isLoadOfField(lk.X, fTab) {
+			okTab = true
 		}
 	}
 	c.Check(okTab, G1, FuncName(translate), "translation through the node→party table", m.Pos(translate.Pos()), "partyIDByUniversalID(id) per agreed node", "the agreed nodes are not translated through the membership table")
